@@ -14,6 +14,7 @@ import Proofs.TracksV2Main
 import Proofs.TracksV2Idem
 import Proofs.TracksV2Db
 import Proofs.TracksV2Wf
+import Proofs.TracksV2Bridge
 
 namespace EngineModel.Properties.C01V2
 open EngineModel EngineModel.TracksV2 EngineModel.Prim
@@ -464,6 +465,59 @@ theorem v2_C01_table_second_write (ops : FOps) (s : Schema) (db : TDb) (hI : Inv
     refine ⟨{ ({ t with row := r } : TRow) with row := r2 }, ?_, hr2⟩
     show (db1.rep { t with row := r } r2).find id = _
     rw [find_rep, hf1]; simp [hid]
+
+
+/-! ### every supported schema version: the per-version column lists
+
+`tablePut s` is the row store the theorems above use for `track_table`.  Here it
+is tied, for each of the seven 2.x versions, to C18's model of `track_table`
+(`EngineModel/Table/Track.lean`) instantiated with the INSERT / UPDATE / SELECT
+column lists that are **regenerated from `track_table.cpp` on every run**
+(`Gen/Bindings.lean`; three distinct lists: 2.18.0, 2.20.1–2.20.2, 2.20.3+):
+`toTable` presents a `Row` (plus id, origin pair, `date_added`,
+`last_edit_time`) as the typed `track_row` of that model. -/
+
+/-- **`create_track` on each version.**  With the statements of version `s`: if
+`track_table::add` of the row `snapshot_to_row` built (id 0, origin (uuid, 0))
+returns id `i`, then `tablePut s r` is defined and `track_table::get(i)` is that
+row with id `i`, origin (uuid, `i`) (trigger), `date_added` at whole seconds,
+and `last_edit_time` as written (2.20.3+) or the epoch (before). -/
+theorem v2_C01_schema_create (s : Schema) :
+    ∃ st, Table.genStmts s.to2 = some st ∧
+    ∀ (d d' : Table.TDb) (u : Bytes) (r : Row) (da le i : Int),
+      d.Wf → d.uuid = .text u → Table.in64 da = true → Table.in64 le = true →
+      Table.tAdd st d (toTable 0 u 0 da le r) = (d', .ok i) →
+      ∃ r', tablePut s r = .ok r' ∧
+        Table.tGet st d' i = .ok (some (toTable i u i (Table.truncSec da * 1000000000)
+          (if s.to2.ge .s2_20_3 then Table.truncSec le * 1000000000 else 0) r')) :=
+  tablePut_is_get_add s
+
+/-- **`track::update` on each version**: `get ∘ update` of the row built for an
+existing track is `tablePut s r` with the origin pair repaired and
+`last_edit_time` stamped by the database from 2.20.3 on; every other row is
+untouched. -/
+theorem v2_C01_schema_update (s : Schema) :
+    ∃ st, Table.genStmts s.to2 = some st ∧
+    ∀ (d d' : Table.TDb) (u : Bytes) (r : Row) (da le i : Int) (old : Table.Raw Table.TCol),
+      d.uuid = .text u → Table.in64 i = true → Table.in64 da = true → Table.in64 le = true →
+      Table.findRow .id d.rows i = some old → Table.in64 (d.clock * 1000000000) = true →
+      Table.tUpdate s.to2 st d (toTable i u 0 da le r) = (d', .ok ()) →
+      ∃ r', tablePut s r = .ok r' ∧
+        Table.tGet st d' i = .ok (some (toTable i u i (Table.truncSec da * 1000000000)
+          (if s.to2.ge .s2_20_3 then d.clock * 1000000000 else 0) r')) ∧
+        ∀ j, j ≠ i → Table.findRow .id d'.rows j = Table.findRow .id d.rows j :=
+  tablePut_is_get_update s
+
+/-- The versions are not interchangeable: the row a 2.18.0 library reads back
+differs from the one a 2.20.1 library reads back (`active_on_load_loops`), and
+that from a 2.20.3 one (`last_edit_time`). -/
+theorem v2_C01_schema_matters :
+    tablePut .s2_18_0 (default : Row) ≠ tablePut .s2_20_1 { (default : Row) with activeOnLoadLoops := some 0 } ∧
+    tablePut .s2_18_0 { (default : Row) with activeOnLoadLoops := some 0 } ≠
+      tablePut .s2_20_1 { (default : Row) with activeOnLoadLoops := some 0 } ∧
+    Table.TField.present Schema.s2_20_2.to2 .last_edit_time = false ∧
+    Table.TField.present Schema.s2_20_3.to2 .last_edit_time = true := by
+  refine ⟨by decide, by decide, rfl, rfl⟩
 
 /-! ### non-vacuity -/
 
